@@ -17,7 +17,7 @@ export function create(groupList, path, data, updateMode, extra) {
   const space = new ge.ComponentSpace()
   counter += 1
   // a component with dynamic slots for elements named `c` (slot-scope templates)
-  const slotComp = space.defineComponent({ is: 'c', options: { dynamicSlots: true }, template: extra && extra.slotTemplate ? extra.slotTemplate : undefined })
+  const slotComp = space.defineComponent({ is: 'c', options: { dynamicSlots: true }, template: extra && extra.slotTemplate ? extra.slotTemplate : undefined, data: extra && extra.slotData ? structuredCloneLoose(extra.slotData) : undefined })
   const def = space.defineComponent({
     is: 'root' + counter,
     using: extra && extra.using ? { c: slotComp } : undefined,
@@ -82,6 +82,45 @@ export function serialize(node) {
   node.childNodes.forEach((c) => walk(c, out))
   return out.join('')
 }
+
+/** the first component instance named `c` in document order (the slot-providing child of the slot-scope cases) */
+export function findChild(node) {
+  for (const n of node.childNodes || []) {
+    if (n instanceof ge.Component && n.is === 'c') return n
+    const r = findChild(n)
+    if (r) return r
+  }
+  return null
+}
+
+/** skeleton of the shadow tree: tags, nesting, text, dataset, marks, slot elements with their values — the part of a tree
+ *  whose meaning does not depend on how a backend treats attribute values (used for the conformance run of substrate B) */
+export function skeleton(node) {
+  const out = []
+  const walk = (n, acc) => {
+    if (n instanceof ge.TextNode) { acc.push(JSON.stringify(n.textContent)); return }
+    if (n instanceof ge.VirtualNode && !(n instanceof ge.ShadowRoot)) {
+      if (n._$slotName !== null && n._$slotName !== undefined) {
+        // (slot values are only stored by a component with dynamic slots: not part of the skeleton)
+        acc.push(`<slot name=${JSON.stringify(n._$slotName)}>`)
+        return
+      }
+      n.childNodes.forEach((c) => walk(c, acc))
+      return
+    }
+    const parts = []
+    if (n.dataset) { const ks = Object.keys(n.dataset).sort(); if (ks.length) parts.push('dataset=' + showValue(n.dataset)) }
+    const marks = n._$marks
+    if (marks) { const ks = Object.keys(marks).sort(); if (ks.length) parts.push('marks=' + showValue(marks)) }
+    const tag = n.is !== undefined ? n.is : n.tagName
+    const inner = []
+    if (n.childNodes) n.childNodes.forEach((c) => walk(c, inner))
+    acc.push(`<${tag}${parts.length ? ' ' + parts.join(' ') : ''}>${inner.join('')}</${tag}>`)
+  }
+  node.childNodes.forEach((c) => walk(c, out))
+  return out.join('')
+}
+export { showValue }
 
 export function takeWarnings() { const w = warnings.slice(); warnings.length = 0; return w }
 export { ge }
